@@ -42,25 +42,28 @@ Proof. exact find_place_no_assertion. Qed.
 Print Assumptions C19_no_assertion_error.
 
 (* ------------------------------------------------------------------------------------------------------------- *)
-(* MODEL ONLY: the driver bookkeeping (Driver.v) was written by reading qupulse/hardware/awgs/tabor.py, which cannot
-   be imported offline.  The theorems below are about that model. *)
+(* DRIVER PART.  Driver.v models the bookkeeping of qupulse/hardware/awgs/tabor.py::TaborChannelPair by hand (the file
+   needs tabor_control, which is not installed).  The model is tied to the source only through a correspondence check
+   that runs the real class against an abstract fake instrument with sampling replaced by stand-ins
+   (harness/props/c19_driver.py); no real instrument or simulator is involved.  The theorems below are about that
+   model. *)
 Require Import QV.C19.Driver QV.C19.ProofsDriver.
 
 (* For every history of upload(force or not) / free_program / remove / cleanup / clear, starting from clear(), every
    known program's waveform j sits in an existing slot whose device content is the waveform's own hash and whose
    reference count is >= 1.  Histories are unbounded; exceptions (refusals, unknown names) leave the state the code
    leaves and the history goes on. *)
-Theorem C19_history_model_only : forall total ops p j q,
+Theorem C19_history : forall total ops p j q,
   let d := run (clear total) ops in
   In p (dv_known d) -> nth_error (pg_w2s p) j = Some q ->
   exists i, q = Z.of_nat i /\ (i < length (dv_dev d))%nat /\
             nth i (dv_dev d) 0 = nth j (pg_segs p) 0 /\ 1 <= nth i (dv_refs d) 0.
 Proof. exact history_slots_hold_data. Qed.
-Print Assumptions C19_history_model_only.
+Print Assumptions C19_history.
 
 (* the same for ANY placement function that satisfies the four clauses: the history property follows from the
    decision-level specification alone *)
-Theorem C19_history_from_clauses_model_only : forall place : place_fun,
+Theorem C19_history_from_clauses : forall place : place_fun,
   (forall mem nh nl d, Forall (fun r => 0 <= r) (m_refs mem) -> place mem nh nl = Ok d -> decision_ok mem nh nl d) ->
   forall total ops p j q,
   let d := run_with place (clear total) ops in
@@ -68,23 +71,45 @@ Theorem C19_history_from_clauses_model_only : forall place : place_fun,
   exists i, q = Z.of_nat i /\ (i < length (dv_dev d))%nat /\
             nth i (dv_dev d) 0 = nth j (pg_segs p) 0 /\ 1 <= nth i (dv_refs d) 0.
 Proof. exact history_slots_hold_data_gen. Qed.
-Print Assumptions C19_history_from_clauses_model_only.
+Print Assumptions C19_history_from_clauses.
 
 (* bookkeeping after every history: equal array lengths and non-negative counters (the preconditions of C19_decision
    are maintained by the driver), belief = device content, the idle slot 0 is never released (so `to_insert > 0` in
    upload() loses nothing), program names unique *)
-Theorem C19_history_bookkeeping_model_only : forall total ops,
+Theorem C19_history_bookkeeping : forall total ops,
   let d := run (clear total) ops in
   length (dv_hashes d) = length (dv_refs d) /\ length (dv_caps d) = length (dv_refs d) /\
   Forall (fun r => 0 <= r) (dv_refs d) /\ dv_hashes d = dv_dev d /\ 1 <= nth 0%nat (dv_refs d) 0 /\
   NoDup (map pg_name (dv_known d)).
 Proof. exact history_bookkeeping. Qed.
-Print Assumptions C19_history_bookkeeping_model_only.
+Print Assumptions C19_history_bookkeeping.
 
 (* non-vacuity: a history with sharing, removal, slot re-use and a forced re-upload *)
-Theorem C19_history_nonvacuous_model_only :
+Theorem C19_history_nonvacuous :
   let d := run (clear 100000) ex_ops in
   map (fun p => (pg_name p, pg_w2s p)) (dv_known d) = [(2%nat, [3]); (3%nat, [1; 2; 4])] /\
   dv_dev d = [0; 14; 12; 16; 15] /\ dv_refs d = [1; 1; 1; 1; 1].
 Proof. exact ex_history. Qed.
-Print Assumptions C19_history_nonvacuous_model_only.
+Print Assumptions C19_history_nonvacuous.
+
+(* Capacity.  The full statement "the capacities of all defined slots never exceed total_capacity" is FALSE for the
+   driver: upload(force=True) (and free_program) release slots without cleanup; find_place counts freed slots behind
+   the last referenced one as reclaimed, but _amend_segments appends behind them. *)
+Definition C19_history_capacity_statement : Prop :=
+  forall total ops, 192 <= total -> zsum (dv_caps (run (clear total) ops)) <= total.
+Theorem C19_history_capacity_refuted :
+  exists total ops, 192 <= total /\ ~ zsum (dv_caps (run (clear total) ops)) <= total.
+Proof. exact capacity_overflow_witness. Qed.
+Print Assumptions C19_history_capacity_refuted.
+
+(* under the guard (no upload places segments while freed slots trail the last referenced one; lengths >= 0) it holds *)
+Theorem C19_history_capacity : forall total ops,
+  192 <= total -> guard_C19_append_behind_freed_slots (clear total) ops = true ->
+  zsum (dv_caps (run (clear total) ops)) <= total.
+Proof. exact history_capacity_guarded. Qed.
+Print Assumptions C19_history_capacity.
+
+(* the guard is satisfiable by a history with sharing, removal, re-use and a forced re-upload *)
+Theorem C19_history_capacity_nonvacuous : guard_C19_append_behind_freed_slots (clear 100000) ex_ops = true.
+Proof. exact ex_ops_guard. Qed.
+Print Assumptions C19_history_capacity_nonvacuous.
